@@ -695,7 +695,7 @@ class Lib:
         ctx.fact(m == CNT(ArrTerm.of(mask, 'bool'), n))
         msnap = mask.snapshot()
         cache[ck] = (mask, m, sel, inv, msnap)
-        ctx.ghost.setdefault('selections', {})[m.get_id()] = dict(sel=sel, n=n, mask=msnap, m=m)
+        ctx.ghost.setdefault('selections', {})[m.get_id()] = dict(sel=sel, n=n, mask=msnap, m=m, inv=inv)
         return self._selected(a, m, sel, inv, msnap)
 
     def _selected(self, a, m, sel, inv, msnap):
